@@ -118,6 +118,32 @@ func (c *c19Mon) scenario(sc *StepCtx) {
 	if esc := s1.Bal[w.addrOf("escrow")]; !esc.IsZero() {
 		m.fail(sc, "C19", "prep-empties-escrow", "", "escrow holds %s after zero-height preparation", esc)
 	}
+	// the preparation rewrites every context record: identity, terms and the batch counter
+	// must come through unchanged (C09 / C10 depend on them)
+	for id, a := range s0.Contexts {
+		b, ok := s1.Contexts[id]
+		if !ok {
+			m.fail(sc, "C09", "removed-only-at-block-end", "zero-height-prep", "context %.16s removed by the zero-height preparation", id)
+			continue
+		}
+		m.hit("C09", "survives-zero-height-prep", fmt.Sprintf("from-%s", a.State))
+		if a.ServiceName != b.ServiceName || !bytes.Equal(a.Consumer, b.Consumer) || a.Input != b.Input || a.SuperMode != b.SuperMode || a.Repeated != b.Repeated || a.ModuleName != b.ModuleName {
+			m.fail(sc, "C09", "immutable-fields", "zero-height-prep", "context %.16s changed an immutable field in the zero-height preparation (repeated %v->%v, super %v->%v, module %q->%q)", id, a.Repeated, b.Repeated, a.SuperMode, b.SuperMode, a.ModuleName, b.ModuleName)
+		}
+		if !termsEqual(a, b) {
+			m.fail(sc, "C09", "terms-change-only-by-update", "zero-height-prep", "context %.16s terms changed in the zero-height preparation (providers %d->%d)", id, len(a.Providers), len(b.Providers))
+		}
+		if a.BatchCounter != b.BatchCounter {
+			m.fail(sc, "C09", "counter-step", "zero-height-prep", "context %.16s batch counter %d -> %d in the zero-height preparation", id, a.BatchCounter, b.BatchCounter)
+			if b.BatchCounter < a.BatchCounter {
+				m.fail(sc, "C10", "total-respected", "counter-reset@zero-height-prep", "context %.16s batch counter %d -> %d in the zero-height preparation: issued batches no longer count against its total", id, a.BatchCounter, b.BatchCounter)
+			}
+		}
+	}
+	// deposits are not part of the preparation (C03)
+	if d := delta(s0, s1, w.addrOf("deposits")); d.Sign() != 0 || !s1.Bal[w.addrOf("deposits")].Equal(s1.sumDeposits()) {
+		m.fail(sc, "C03", "custody", "zero-height-prep", "after the zero-height preparation the deposit account holds %s, bindings record %s", s1.Bal[w.addrOf("deposits")], s1.sumDeposits())
+	}
 	for id, rc := range s1.Contexts {
 		if rc.State != types.PAUSED || rc.BatchState != types.BATCHCOMPLETED {
 			m.fail(sc, "C19", "prep-pauses-contexts", "", "context %.16s after preparation: state %s, batch %s, counts %d/%d", id, rc.State, rc.BatchState, rc.BatchRequestCount, rc.BatchResponseCount)
